@@ -82,10 +82,16 @@ def main():
             if ti == 1 or rng.random() < 0.25:
                 # column names that are not identifiers (legal DAP names: no quoting needed)
                 cols = ["t-max", "obs-id", "c2", "site_no-2", "c4"][:ncols]
+            if rng.random() < 0.4:
+                cols = rng.sample(cols, len(cols))      # the same names, stored in another order than in other tables
             int_only = rng.random() < 0.4
             types = ["i" if int_only else rng.choice("ids") for _ in cols]
             nrows = rng.randint(0, 8)
             rows = []
+            if ti in (2, 3):
+                # corpus tables: the same sequence id and column names in two storage orders, asked the same clauses
+                ncols, cols, int_only, types, nrows = 3, [["c0", "c1", "c2"], ["c2", "c0", "c1"]][ti - 2], True, ["i", "i", "i"], 0
+                rows = [tuple({"c0": j, "c1": 4 - j, "c2": 3 * j - 2}[c] for c in cols) for j in range(5)]
             if ti == 0:
                 # corpus table: two String columns whose padded sizes are permutations of one another from record to record
                 ncols, cols, int_only, types, nrows = 3, ["c0", "c1", "c2"], False, ["s", "i", "s"], 0
@@ -156,6 +162,8 @@ def main():
                     o_ = rng.choice(list(PYOP))
                     big_, small_ = rng.choice([(12, 1), (10, 1), (-12, -1), (25, 2)])
                     clauses = clauses[:1] + [(cols[j], o_, "const", big_), (cols[j], o_, "const", small_)]
+                if ti in (2, 3) and qi < 2:
+                    clauses = [[("c0", ">", "const", 1)], [("c1", "<", "col", "c2")]][qi]
                 if ti == 0 and qi < 2:
                     # a constant longer than the width of the numpy field whose first 8 characters are a cell
                     clauses = [("c0", ["=", "!="][qi], "const", "abcdefgh9")]
